@@ -31,6 +31,9 @@ func (s *Server) announceHandlerV1(w http.ResponseWriter, r *http.Request) error
 	if err := json.NewDecoder(r.Body).Decode(req); err != nil {
 		return handler.Errorf("json decode request: %s", err)
 	}
+	if req.Peer == nil {
+		return handler.Errorf("request has no peer").Status(http.StatusBadRequest)
+	}
 	d, err := req.GetDigest()
 	if err != nil {
 		return handler.Errorf("get request digest: %s", err)
@@ -57,6 +60,9 @@ func (s *Server) announceHandlerV2(w http.ResponseWriter, r *http.Request) error
 	req := new(announceclient.Request)
 	if err := json.NewDecoder(r.Body).Decode(req); err != nil {
 		return handler.Errorf("json decode request: %s", err)
+	}
+	if req.Peer == nil {
+		return handler.Errorf("request has no peer").Status(http.StatusBadRequest)
 	}
 	d, err := req.GetDigest()
 	if err != nil {
